@@ -323,6 +323,13 @@ HELPER_COL = re.compile(r"^_expr_\d+$")
 def _compare_values(prog, text, sql_text, schema, db, pre, ref, sq, r, sem, dialect, target, executable, timeout_ms, compare_names, extra_pre, drop):
     if compare_names:
         bad = [(i, c.name, s.name) for i, (c, s) in enumerate(zip(ref.cols, sq.cols)) if c.name and c.name != s.name]
+        if not bad:
+            # a name that denotes one column of the final frame must denote one column of the result: a shadowed (now unnamed)
+            # column must not come back under the name that shadows it
+            rn = [c.name for c in ref.cols if c.name]
+            dup = [(i, None, s.name) for i, (c, s) in enumerate(zip(ref.cols, sq.cols)) if not c.name and s.name in rn and rn.count(s.name) == 1]
+            if dup:
+                bad = dup
         if bad:
             names_out = structural(prog, text, sql_text, schema, f"names: {bad}", expect_cols=[c.name for c in ref.cols])
             # a column that merely got a generated name (duplicate names at a split) does not make the program blind to wrong
